@@ -198,7 +198,9 @@ func (x *Exec) invoke(st *State, ins ssa.Instruction, c *ssa.CallCommon, fnv Val
 			}
 		}
 		siteName = x.siteWithOrdinal(ins, siteName)
-		own := callerFrame.Fn == x.Fn && callerFrame.Caller == nil
+		// the function's own call sites: in its body, or in the body of a closure it defines (textually
+		// part of the function; such sites carry no ordinal)
+		own := (callerFrame.Fn == x.Fn && callerFrame.Caller == nil) || callerFrame.Fn.Parent() == x.Fn
 		if !own {
 			// inside an inlined callee only the stated assumptions about the callee apply (they are about
 			// the called function, not about the site); assertions, ordinals and ghost updates belong to the
